@@ -7,8 +7,8 @@ EXTENDS Solver, Gen_Games, Randomization
 
 MCFamily ==
     CASE IOEnv.MC_FAMILY = "dead" -> RandomSubset(K, DeadGames)
-      [] IOEnv.MC_FAMILY = "stop" -> {StopFamily[i].g : i \in DOMAIN StopFamily}
-      [] IOEnv.MC_FAMILY = "rand" -> {RandFamily[i].g : i \in DOMAIN RandFamily}
+      [] IOEnv.MC_FAMILY = "stop" -> (LET q == StopFamily IN {q[i].g : i \in DOMAIN q})
+      [] IOEnv.MC_FAMILY = "rand" -> (LET q == RandFamily IN {q[i].g : i \in DOMAIN q})
 
 Init ==
     /\ desc \in MCFamily
